@@ -897,6 +897,24 @@ func (e *env) trCall(x *ECall) (Val, XT, error) {
 		}
 		g.c.declareFun("u_ciContains", []string{"Str", "Str"}, "Bool")
 		return app("u_ciContains", sv, g.c.strLit(lit.V)), xtBool, nil
+	case "applyBool", "applyInt", "applyStr":
+		// the result of calling the pure function value f on the given arguments
+		if len(x.Args) < 1 {
+			return nil, XT{}, e.errf("%s(f, args...)", x.Fn)
+		}
+		var terms, sorts []string
+		for i := range x.Args {
+			v, xt, err := argv(i)
+			if err != nil {
+				return nil, XT{}, err
+			}
+			terms = append(terms, v)
+			sorts = append(sorts, xt.S)
+		}
+		res := map[string]XT{"applyBool": xtBool, "applyInt": xtInt, "applyStr": xtStr}[x.Fn]
+		fn := "apply_" + sanitize(strings.Join(sorts[1:], "_")) + "_" + res.S
+		g.c.declareFun(fn, sorts, res.S)
+		return app(fn, terms...), res, nil
 	case "contents":
 		v, xt, err := argv(0)
 		if err != nil {
